@@ -9,7 +9,7 @@
 (*                                                                         *)
 (* run: TRACE=file.ndjson tlc -workers 1 -config TraceHook.cfg TraceHook   *)
 (***************************************************************************)
-EXTENDS Script, Oracles, Json, IOUtils, TLC
+EXTENDS Script, Oracles, Work, Json, IOUtils, TLC
 
 Rec == ndJsonDeserialize(IOEnv.TRACE)
 
@@ -31,9 +31,20 @@ Flag(case, clauses, line) ==
   ELSE IF PrintT(<<"REJECT", case, clauses, line>>) THEN bad \cup {<<case, c>> : c \in clauses}
   ELSE bad
 
-\* constants of the two work bounds (DESIGN.md C07, C19)
-K == 4
-K2 == 4
+\* [tag, o, ol, n, nl] tuples (tag 0..3, 4 = finish) as Script events
+TupleEvent(t) ==
+  CASE t[1] = 0 -> EvEqual(t[2], t[4], t[3])
+    [] t[1] = 1 -> EvDelete(t[2], t[3], t[4])
+    [] t[1] = 2 -> EvInsert(t[2], t[4], t[5])
+    [] t[1] = 3 -> EvReplace(t[2], t[3], t[4], t[5])
+    [] t[1] = 4 -> EvFinish
+
+
+(* Behind the compaction adapter the carried indices are the subject of   *)
+(* C11 (and of known finding KF-1), not of the hook-protocol properties:   *)
+(* C10 demands exact carried indices only through Replace alone.           *)
+NotDemanded(m) == IF m.stack \in {"compact", "compact_replace", "compact_replace_nr"}
+                  THEN {"carried"} ELSE {}
 
 (* clauses decided when the call returns                                    *)
 FinalViol(m, st, p, r) ==
@@ -54,12 +65,30 @@ FinalViol(m, st, p, r) ==
               /\ covered < AnchorOptimum(oldR, newR)
            THEN {"anchors"} ELSE {})
      \cup (IF clean /\ m.fuel = -2 /\ m.stack = "none" /\ m.alg \in {"myers", "patience"}
-              /\ r.cmps > K * (N + M + 1) * (D + 1)
+              /\ ~WorkBound(N, M, D, r.cmps)
            THEN {"work"} ELSE {})
      \cup (IF clean /\ m.stack = "none" /\ p.x >= 0
-              /\ r.cmps - p.x > K2 * (N + M + 1)
+              /\ ~AfterExpiryBound(N, M, p.x, r.cmps)
            THEN {"afterexpiry"} ELSE {})
      \cup (IF p.mono THEN {} ELSE {"probe_mono"})
+     \* adapters fed with a script (family A, C10): totals preserved, input itself valid
+     \cup (IF "in" \in DOMAIN m
+           THEN LET inEvs == [i \in 1..Len(m.in) |-> TupleEvent(m.in[i])]
+                    ri == SRun(m.old, m.new, m.os, m.oe, m.ns, m.ne, inEvs)
+                IN (IF ri.viol = {} /\ Complete(ri.s) THEN {} ELSE {"input_invalid"})
+                   \cup (IF clean /\ (st.dels # ri.s.dels \/ st.inss # ri.s.inss) THEN {"totals"} ELSE {})
+           ELSE {})
+
+(* generic comparison records written by the harness:                     *)
+(*   same:   the two recorded results must be equal                         *)
+(*   expand: stream b must be stream a with every replace expanded into     *)
+(*           delete + insert (a hook that does not override replace)        *)
+(*   drop4:  stream b must be stream a without its finish calls             *)
+ExpandT(t) == IF t[1] = 3 THEN <<<<1, t[2], t[3], t[4], 0>>, <<2, t[2], 0, t[4], t[5]>>>> ELSE <<t>>
+CmpViol(r) ==
+  CASE r.ev = "same" -> IF r.a = r.b THEN {} ELSE {r.clause}
+    [] r.ev = "expand" -> IF FlattenSeq([i \in 1..Len(r.a) |-> ExpandT(r.a[i])]) = r.b THEN {} ELSE {r.clause}
+    [] r.ev = "drop4" -> IF SelectSeq(r.a, LAMBDA t : t[1] # 4) = r.b THEN {} ELSE {r.clause}
 
 (* the sub-range run must be the whole-slice run shifted by the range starts *)
 Shifted(t, os, ns) == IF t[1] = 4 THEN t ELSE <<t[1], t[2] + os, t[3], t[4] + ns, t[5]>>
@@ -79,7 +108,7 @@ TNext ==
             /\ bad' = Flag(IF sl = 0 THEN 0 ELSE Rec[sl].case,
                            IF sl = 0 THEN {} ELSE {"noreturn"}, l)
        [] r.ev \in HookEvs ->
-            /\ bad' = Flag(Rec[sl].case, SViol(s, r), l)
+            /\ bad' = Flag(Rec[sl].case, SViol(s, r) \ NotDemanded(Rec[sl]), l)
             /\ s' = SStep(s, r)
             /\ UNCHANGED <<sl, pr>>
        [] r.ev = "probe" ->
@@ -89,13 +118,16 @@ TNext ==
                       mono |-> pr.mono /\ (pr.exp => r.exp)]
             /\ UNCHANGED <<sl, s, bad>>
        [] r.ev = "ret" ->
-            /\ bad' = Flag(r.case, FinalViol(Rec[sl], s, pr, r), l)
+            /\ bad' = Flag(r.case, FinalViol(Rec[sl], s, pr, r) \ NotDemanded(Rec[sl]), l)
             /\ sl' = 0 /\ s' = <<>> /\ pr' = NoProbe
        [] r.ev = "panic" ->
             /\ bad' = Flag(r.case, {"panic"}, l)
             /\ sl' = 0 /\ s' = <<>> /\ pr' = NoProbe
        [] r.ev = "shiftcmp" ->
             /\ bad' = Flag(r.case, ShiftViol(r), l)
+            /\ UNCHANGED <<sl, s, pr>>
+       [] r.ev \in {"same", "expand", "drop4"} ->
+            /\ bad' = Flag(r.case, CmpViol(r), l)
             /\ UNCHANGED <<sl, s, pr>>
 
 TSpec == TInit /\ [][TNext]_vars
